@@ -78,6 +78,18 @@ CHECKS = {
         'shared between obsolete and current terms, clashing ids, both ontology kinds, all query forms, identity of the returned object.',
         'Trusted: Coq kernel + vm_compute; dict modelled as association list with in-place overwrite; object identity rendered as list position.',
         '§4 C06'),
+    'C15': (
+        'Coq proof (refinement of the nested-dict container to a map on unordered pairs by induction over histories; structural invariant for items/len; metadata codec round trip at string level) + per-run vm_compute correspondence and an executed CSV round trip',
+        'Machine-checked theorems for EVERY history of set_similarity calls and any value type with a zero and a sign test: get(a,b) = get(b,a) = the last '
+        'accepted value written to the unordered pair {a,b}, else 0; a negative value raises and changes nothing; items lists every stored unordered pair '
+        'exactly once (normalised order, current value) and len = |items|; a pair is stored iff an accepted write touched it. Metadata: every non-empty '
+        'key-unique map without ; = CR LF encodes to a single line, frames/unframes and decodes to itself; any reserved character is rejected. '
+        'Correspondence: all histories of length <=2 (quick) / <=3 (thorough) over 27 operations with a full read-back after every step, random long '
+        'histories over 7 key alphabets and extreme values. PARTIAL (runtime codec): the CSV row codec, float repr and gzip are exercised by an executed '
+        '.csv/.csv.gz round trip compared by float.hex, not proved.',
+        'Trusted: Coq kernel + vm_compute; str <= as bytewise order on UTF-8; float sign read off float.hex tokens. Two genuine defects fixed in /repo: '
+        'line breaks in metadata (fix: 435735a), rows with #-keys dropped by from_csv (fix: b0ef295).',
+        '§4 C15'),
     'C18': (
         'Coq proof (helpers, exists_path and augment_* over the proved graph model; union of closures for any collection) + per-run vm_compute correspondence with src/hpotk/algorithm/_traversal.py, _augment.py',
         'Machine-checked theorems for every graph built from an acyclic edge list, a bare graph or anything carrying one, CURIE or TermId sources: each '
